@@ -83,7 +83,7 @@ def _run(ctx, rep):
                 ('int', P('oem_revision'), 4)] + [('int', C(b), 1) for b in b'RVAT'] + [('int', C(b), 1) for b in (0, 0, 0, 1)] + [('rep', sub(P('length'), C(36)), None, (('int', ZERO, 1),))]
         ok, why = segs_equal(d.segs, want, [c for c, _ in I.st.facts])
         rep.ob('header', 'sdt::Sdt::new', ok, 'Sdt::new lays the header out as %s: %s' % (show_segs(d.segs)[:200], why), sp=fs['new']['sp'], detail={'layout': show_segs(d.segs), 'specified': show_segs(want)})
-        rep.ob('refusal', 'sdt::Sdt::new', any(g['cond'] == cmp('le', C(36), P('length')) for g in I.guards), 'a declared length below 36 is not refused', sp=fs['new']['sp'], detail={'guards': [show(g['cond']) for g in I.guards]})
+        rep.ob('refusal', 'sdt::Sdt::new', refused(I.guards, cmp('le', C(36), P('length'))), 'a declared length below 36 is not refused', sp=fs['new']['sp'], detail={'guards': [show(g['cond']) for g in I.guards]})
         # the checksum clause: the image sums to zero and byte 9 was the last thing written (how it is computed - zero,
         # sum, store; or sum with the stale byte and take it back out - is not part of the property)
         from rules.C01 import z
